@@ -84,6 +84,7 @@ class SimProc:
         self.toplevel = toplevel
         self.nseam = 0          # seam calls made by this process (all its threads): logical fault trigger
         self.killed_at = None
+        self.stalled_until = 0
         self.pid = 1000 + len(kernel.procs)
         self.children = []
         if parent is not None:
@@ -269,6 +270,12 @@ class Kernel:
     def sleep(self, ns):
         self.block(lambda: False, ns, "sleep", int(ns))
 
+    def stall(self, proc, ns):
+        """The process (all its threads) does not run for ns of virtual time: a stopped / swapped-out / starved node."""
+        proc.stalled_until = max(proc.stalled_until, self.now + int(ns))
+        self.log("stall", proc.name, int(ns))
+        self.fire("stall")
+
     def kill(self, proc, why="kill"):
         """SIGKILL: every thread of the process raises SimKilled at its next seam; children survive."""
         if proc.exitcode is not None:
@@ -287,6 +294,8 @@ class Kernel:
         now = self.now
         for t in self.threads:
             st = t.state
+            if t.proc.stalled_until > now and not t.killed:
+                continue        # a stalled (SIGSTOPped, swapped out) process: none of its threads runs until it resumes
             if st == "runnable":
                 out.append(t)
             elif st == "blocked":
@@ -315,7 +324,8 @@ class Kernel:
             cands = self._candidates()
             if cands:
                 break
-            nxt = [t.deadline for t in self.threads if t.state == "blocked" and t.deadline is not None]
+            nxt = [max(t.deadline, t.proc.stalled_until) for t in self.threads if t.state == "blocked" and t.deadline is not None]
+            nxt += [p.stalled_until for p in self.procs if p.stalled_until > self.now and any(t.state != "done" for t in p.threads)]
             if self.timers:
                 nxt.append(self.timers[0][0])
             if not nxt:
